@@ -1581,6 +1581,33 @@ def batch_reference(case: dict, sol: dict, pin: list[dict]) -> dict:
     return ref
 
 
+def generated_measurement_block(case: dict, sol: dict) -> tuple:
+    """(Za, H, D) of the observation equation  y_t = Za alpha_t + D + H w_t  derived from the measurement equations AS
+    GENERATED (gen_model: y = c + Dl xi + Fc y + S w in equation space, solved for y), not from the solution object's
+    Z / H / D; only the similarity transform Ua and the ordering of the vectors are taken from the solution."""
+    model = case["model"]
+    P = model["params"]
+    ynames, wnames, xi = sol["y_names"], sol["w_names"], sol["xi_tokens"]
+    m = len(ynames)
+    col = {nm: i for i, (nm, sh) in enumerate(xi) if sh == 0}
+    Dl = np.zeros((m, len(xi))); S = np.zeros((m, len(wnames))); c = np.zeros(m); Fc = np.zeros((m, m))
+    for r, yn in enumerate(ynames):
+        j = model["mnames"].index(yn)
+        c[r] = P[f"c{j+1}"]
+        for i, tn in enumerate(model["tnames"]):
+            d = P.get(f"d{j+1}_{i+1}")
+            if d is not None:
+                Dl[r, col[tn]] = d
+        for l, on in enumerate(model["mnames"]):
+            f = P.get(f"f{j+1}_{l+1}")
+            if f is not None:
+                Fc[r, ynames.index(on)] = f
+        if f"w{j+1}" in wnames:
+            S[r, wnames.index(f"w{j+1}")] = 1.0
+    A = np.eye(m) - Fc
+    return np.linalg.solve(A, Dl) @ sol["Ua"], np.linalg.solve(A, S), np.linalg.solve(A, c)
+
+
 def public_solution(m) -> dict:
     sol = m.get_solution()
     vec = m._get_dynamic_solution_vectors()
@@ -1624,6 +1651,9 @@ def falsify_c03_case(case: dict, tol=1e-7) -> list[Failure]:
     sol["db"], sol["span"] = db, span
     sol["v_impact"] = anticipated_impact(case, sol)
     pin = period_inputs(case, sol)
+    # the observation equation of the reference comes from the generated measurement equations, not from the Z/H/D of
+    # the solution object (a wrongly solved measurement block then shows as a difference from exact conditioning)
+    sol["Za"], sol["H"], sol["D"] = generated_measurement_block(case, sol)
     try:
         ref = batch_reference(case, sol, pin)
     except np.linalg.LinAlgError:
